@@ -97,15 +97,18 @@ def mergeapp_facts():
     # return code from conflicted decisions
     rc = None
     for st in ast.walk(mm):
-        if isinstance(st, ast.Assign) and isinstance(st.value, ast.IfExp) and is_name(st.value.test, 'conflicted') and isinstance(st.targets[0], ast.Name):
-            rc = (st.targets[0].id, rc_nat(const(st.value.body, 'rc'), 'rc'), rc_nat(const(st.value.orelse, 'rc'), 'rc'))
-    if rc is None: fail('main_merge: `<rc> = <n> if conflicted else <m>` not found')
+        if isinstance(st, ast.Assign) and isinstance(st.targets[0], ast.Name):
+            if isinstance(st.value, ast.IfExp) and is_name(st.value.test, 'conflicted'):
+                rc = (st.targets[0].id, 'RcConst', rc_nat(const(st.value.body, 'rc'), 'rc'), rc_nat(const(st.value.orelse, 'rc'), 'rc'))
+            elif ast.unparse(st.value) == 'len(conflicted)':
+                rc = (st.targets[0].id, 'RcCount', 1, 0)
+    if rc is None: fail('main_merge: neither `<rc> = <n> if conflicted else <m>` nor `<rc> = len(conflicted)` found')
     cf = [st for st in ast.walk(mm) if isinstance(st, ast.Assign) and is_name(st.targets[0], 'conflicted')]
     if len(cf) != 1 or ast.unparse(cf[0].value).replace(' ', '') != '[dfordindecisionsifd.conflict]': fail('main_merge: definition of conflicted')
     last = mm.body[-1]
     if not (isinstance(last, ast.Return) and is_name(last.value, rc[0])): fail('main_merge: last statement is not `return %s`' % rc[0])
     if any(isinstance(n, (ast.Try, ast.Raise)) for n in ast.walk(mm)): fail('main_merge: try/raise is not modelled')
-    F['rc_conflict'], F['rc_clean'] = rc[1], rc[2]
+    F['rc_mode'], F['rc_conflict'], F['rc_clean'] = rc[1], rc[2], rc[3]
     # how the merged notebook reaches the output file
     wr = calls(mm, lambda f: is_attr(f, 'nbformat', 'write'))
     via = None
@@ -190,13 +193,16 @@ def main():
     L = ['(* GENERATED by tools/gen/gen_mergeapp.py from nbdime/nbmergeapp.py, nbdime/vcs/git/mergedriver.py and the installed',
          '   nbformat.write -- do not edit.  Facts the model Sys/MergeApp.v branches on. *)',
          'Inductive write_via := WritePath | WriteOpened.',
-         'Inductive driver_out := DOutLocal | DOutArg.']
+         'Inductive driver_out := DOutLocal | DOutArg.',
+         'Inductive rc_mode := RcConst | RcCount.   (* rc = <n> if conflicted else <m>  |  rc = len(conflicted) *)']
     for k in sorted(F):
         v = F[k]
         if isinstance(v, bool): ty, tv = 'bool', coq_bool(v)
+        elif k in ('write_via', 'driver_out', 'rc_mode'): ty, tv = k, v
         elif isinstance(v, int): ty, tv = 'nat', str(v)
         elif k == 'write_via': ty, tv = 'write_via', v
         elif k == 'driver_out': ty, tv = 'driver_out', v
+        elif k == 'rc_mode': ty, tv = 'rc_mode', v
         else: fail('internal: fact %s' % k)
         L.append('Definition fact_%s : %s := %s.' % (k, ty, tv))
     write_if_changed('MergeAppFacts.v', '\n'.join(L) + '\n')
